@@ -7,6 +7,48 @@ CHECKS = {
  "C01": ("model_checking", "explicit-state BFS over a reference set model, every transition replayed on a fresh real store",
          "All reachable states of a 10 (quick) / 14 (thorough) triple universe x every add/remove batch of size 0-2, plus the store-level state space (2 names, stale handles) to fixpoint; after every transition Exist for every universe triple, the full listing, graph names and error flags are compared with the set model.",
          "Bounded universe and batch size; identity judged structurally via exported accessors; one goroutine.", "3/C01"),
+ "C02": ("model_checking", "explicit-state BFS over all subsets of a triple universe; in every state all ten lookup methods over an argument grid compared with a scan of the set model",
+         "Every reachable content of a 7-8 triple universe (singleton and 2-batch add/remove transitions replayed on a fresh graph), and in every state all ten lookup methods over stored and non-stored subjects, predicates (same id immutable / @T1 / @T2 / absent anchor / absent id) and objects, default options; results as multisets, channel closed, no error.",
+         "Bounded universe; reference lookup = filter by structural component equality (verif/lookup); default lookup options only (C09 owns options).", "3/C02"),
+ "C03": ("model_checking", "bounded-exhaustive enumeration of query shapes x graph contents against a nested-loop reference evaluator",
+         "All one-clause shapes (3 subjects x 10 predicate terms x 8 object terms, every sharing pattern of binding names, every single extraction modifier, 6 global time bounds; pairs of modifiers in thorough) x every subset of <= 3 triples (thorough: all 256 subsets) of an 8-triple universe, one and two FROM graphs (disjoint and overlapping); all two-clause shapes (146k) x 10 designed graphs. Row multisets compared with bqlm.Solve (one row per distinct assignment).",
+         "Reference evaluator bqlm (600 lines, own reading of docs/bql.md and of the property); anchors in UTC; <= 2 clauses; multiplicities open only for overlapping graphs.", "3/C03"),
+ "C05": ("model_checking", "bounded-exhaustive enumeration of a value universe; print -> parse -> structural equality -> print; graph write/read over all small subsets",
+         "Every node / predicate / literal / object / triple of a finite universe (ids of length <= 3-4 over a delimiter alphabet, anchors in 3 zones x 4 precisions, int64 and float64 boundary sets, texts, blobs) is printed, parsed back, compared structurally and printed again; every subset of size <= 4 (5) of a 14 (18) triple universe is written with WriteGraph and read into an empty graph.",
+         "Domain taken from docs/temporal_graph_modeling.md; NaN excluded; longer ids and other zones not covered.", "3/C05"),
+ "C06": ("model_checking", "all ordered pairs of a near-collision value universe; definedness on boundary sets; table recomputed concurrently and in a second process",
+         "UUID(x)=UUID(y) iff same kind and structurally equal, and Triple.Equal likewise, for all ordered pairs within each value family of a 1.6k (8.9k) value universe built from near-collisions; UUID defined on all int64/float64 boundary values; table recomputed by 8 goroutines and by a re-executed process.",
+         "Goroutine part free-running (not exhaustive over schedules); second process = same binary on this machine.", "3/C06"),
+ "C07": ("model_checking", "stateless model checking of the real (AST-instrumented) storage/memory, planner and table code under a cooperative scheduler: unbounded exploration with sleep sets per scenario plus deviation-bounded exploration without reduction; histories checked with porcupine against the set model",
+         "9 scenarios x result-channel capacity 0/1 (2-7 threads; S6 = BQL INSERT || 2-clause SELECT). S1, S2, S3a, S4, S5a, S5b, S7: every Mazurkiewicz trace of the synchronisation operations and every schedule with <= 2 (quick) / <= 3 (thorough) deviations unreduced; S3 (shared LookupOptions) <= 3/4 deviations; S6 <= 1/2. On every execution: no panic / deadlock / leak / horizon, close exactly once also on error paths, batch atomicity, linearizability (porcupine), options unchanged before / during / after the call.",
+         "Interleaving granularity is synchronisation operations; data-race freedom is validated, not decided, by a free-running -race companion. The explored program is the instrumented copy (map capacity hints dropped, map order ascending). RWMutex, WaitGroup and channel semantics are a transcription of Go's.", "3/C07"),
+ "C09": ("model_checking", "explicit-state BFS over graph contents; in every state the full lookup-option grid x all ten methods compared with the reference Lookup model; paging checked against the implementation's own unpaged sequence",
+         "All 64 contents of a 6-triple temporal universe; in each the grid lower/upper in {nil,T0,T1,T2} (incl. lower>upper, bounds equal to anchors) x filter {none, latest, isImmutable, isTemporal} x field {predicate, object} + LatestAnchor x (MaxElements, Offset) in {0..3}^2 x ten methods x an argument grid.",
+         "Bounded universe; latitude: Field=subject and LatestAnchor+FilterOptions may error; MaxElements<=0 means unpaged.", "3/C09"),
+ "C10": ("model_checking", "bounded-exhaustive enumeration of (base clause, OPTIONAL clause[s], binding sharing pattern, graph) against the reference evaluator (left outer join)",
+         "Every one-clause base shape x every one-clause shape as OPTIONAL clause under every sharing pattern of names (128k shapes) x 5-8 designed graphs; every single extraction modifier on the optional clause (70k shapes); two OPTIONAL clauses in sequence over a reduced vocabulary (320k shapes).",
+         "Latitude: inside OPTIONAL an inapplicable extraction may mean 'no match' or 'match with NULL' (docs/bql.md vs C03), both accepted; joining on a binding an earlier OPTIONAL may have left NULL is not generated.", "3/C10"),
+ "C11": ("model_checking", "bounded-exhaustive enumeration of aggregate queries x graph subsets against the reference evaluator (grouping by structural value identity)",
+         "7 patterns whose columns mix value kinds x every choice of 1-2 grouping bindings (with/without alias) x every combination of count / count distinct / sum on the other bindings (786 queries) x 340 (thorough: 16k) subsets of a 10 (14) triple universe incl. empty results and singleton groups.",
+         "sum over a column that is not uniformly int64 or float64 is unspecified and skipped; no OPTIONAL; <= 2 clauses.", "3/C11"),
+ "C12": ("model_checking", "bounded-exhaustive enumeration of (query, ORDER BY key list, LIMIT) with a permutation + adjacent-order + valid-top-n oracle",
+         "12 base queries (columns of int64 with negatives, float64 with fractions and 1e21, anchors in 3 zones and 4 precisions, text, node, predicate, extracted ids, aliases, aggregate outputs, a join, row-dropping extractions) x every key list of length <= 2 with ASC/DESC plus repeated keys x every LIMIT 0..N+1 and no LIMIT; 8 invalid limits with and without ORDER BY.",
+         "Comparator: numbers numerically, anchors chronologically, everything else by printed form; ties free; Go map-iteration order inside badwolf is not controlled in this native build.", "3/C12"),
+ "C15": ("model_checking", "exhaustive enumeration of all strings up to a length bound over delimiter alphabets plus all single mutations of printed forms into all parser entry points; all short line sequences into the graph reader",
+         "All strings of <= 4 (5) letters over a 25-letter alphabet whose letters include the delimiter tokens, focused alphabets to length 5-8, every prefix / suffix / deletion / duplication / injection of 45 (200) printed forms, into node, predicate, literal (default and bounded), object and triple parsers; reader: all sequences of <= 3 (4) lines over 9-10 line kinds.",
+         "Random strings are replaced by exhaustive short strings and mutations; termination observed as return.", "3/C15"),
+ "C16": ("model_checking", "bounded-exhaustive enumeration of short strings over a delimiter alphabet judged by a structural token-stream spec plus metamorphic relations; termination and channel closure decided by a step counter and exit hook in an instrumented copy of lexer.go",
+         "Every string of <= 4 (5) letters over 29 letters at channel capacities 0,1,2,7: one terminal EOF/ERROR, token texts at increasing non-overlapping offsets, channel closed, bounded steps, identical streams at all capacities; whitespace and letter-case metamorphic relations; printed forms of values lex to one token.",
+         "Bounded alphabet and length; no token prediction; lexer || consumer schedule exploration not part of this check.", "3/C16"),
+ "C17": ("model_checking", "complete graph search over the finite grammar tables; per alternative a witness statement replayed on the real parser with recording hooks",
+         "BQL() and SemanticBQL() (73 rules, 178 alternatives each): disjoint first tokens, at most one empty alternative and last, every symbol defined / reachable / productive, no left recursion, same shape in both tables; 432 witnesses (1.3k-12k parser traces) accepted with the recorded alternative sequence equal to the table derivation.",
+         "Finite table checked completely; one canonical lexeme per token kind.", "3/C17"),
+ "C18": ("model_checking", "BFS over parser configurations (viable token prefixes) against an independent table-driven recogniser; sentence enumeration with all single-token mutations; exhaustive (A then B) histories on one parser compared with a fresh parser",
+         "Every viable prefix of length < 12 (14) extended by each of the 55 token kinds (1.2M / 10M sequences); every statement of <= 14 tokens accepted, all single-token deletions / insertions / substitutions classified; 48-statement corpus x 561 first statements (every token prefix of every corpus statement) parsed in sequence on one SemanticBQL parser, canonical Statement dump compared.",
+         "One canonical lexeme per kind, confirmed by re-lexing; recogniser validated against the repository's accept/reject tables.", "3/C18"),
+ "C19": ("model_checking", "explicit-state BFS over (content, per-handle cache entries) with every transition replayed on a fresh memoized store; every read through every handle compared with the wrapped store",
+         "Handles h1=NewGraph, h2,h3=Graph of the same graph through the memoization wrapper; add/remove of 3 triples through any handle; all lookups, Exist, Triples x 6 option values (paging offsets, window, latest) through any handle; BFS to depth 4-5 (6-7 thorough) with canonical-state deduplication.",
+         "Sequential part only: interleavings of the layer's internal steps are not explored by this check.", "3/C19"),
 }
 NOT_YET = "check not built yet in this round (work in progress; see DESIGN.md section 3)"
 def main():
@@ -36,6 +78,8 @@ def main():
             "add_only": True,
         },
         "engines": [
+            {"name": "vsched", "path": "/verif/instr /verif/vrt /verif/vsync /verif/vx /verif/explore", "serves_properties": [p for p in ("C07","C08","C20") if p in CHECKS],
+             "kind_free_text": "stateless model checker for the real Go code: AST instrumenter (sync, channels, go, select, map range) + cooperative runtime + preemption-bounded / sleep-set DFS explorer, applied per run through go build -overlay"},
             {"name": "xstate", "path": "/verif/common /verif/model /verif/cmd", "serves_properties": [p for p in ALL if p in CHECKS],
              "kind_free_text": "explicit-state BFS / bounded-exhaustive enumeration against Go reference models; every model transition replayed on a fresh instance of the real implementation"},
         ],
